@@ -22,14 +22,14 @@ PROPS = {
                         'ill-formed UTF-8 in a topic is not in the property list: Go replaces it by U+FFFD (reported as a note in DESIGN.md, D16)'],
     },
     'C14': {
-        'engines': [('filter', 300, 3000), ('match', 600, 6000), ('matchsweep', 1, 1), ('mux', 200, 2000)],
+        'engines': [('filter', 300, 3000), ('match', 600, 6000), ('matchsweep', 1, 1), ('mux', 200, 2000), ('muxseq', 200, 2000)],
         'rule': 'all filter strings over {a,b,+,#,/} up to length 4 (6 thorough); all filter x topic pairs up to length 3 (4 thorough) against '
                 'the Lean model; exhaustive Go-side sweep of all pairs up to filter length 5 / topic length 4 (6/6 thorough) against the §4.7 '
                 'oracle; random long strings with multi-byte runes; non-trivial = valid filter',
         'assumptions': ['topic names starting with $ are outside the property'],
     },
     'C15': {
-        'engines': [('ids', 200, 2000), ('idconc', 1, 1), ('initid', 2000, 200000), ('apipub', 150, 3000), ('rhandle', 1, 1), ('idreuse', 1, 1)],
+        'engines': [('ids', 200, 2000), ('idconc', 1, 1), ('initid', 2000, 200000), ('apipub', 150, 3000), ('rhandle', 1, 1), ('idreuse', 1, 1), ('retry', 150, 1000)],
         'rule': 'id sequences from counter values around every wrap point (uint16 and uint32) compared with the model; full 65535-call '
                 'windows checked for duplicates; concurrent callers (2..64 goroutines) checked for duplicates and zero',
         'partial': 'the statement "unique among outstanding requests" is proved for requests issued within the last 65535 issues '
@@ -44,7 +44,7 @@ PROPS = {
         'assumptions': [],
     },
     'C04': {
-        'engines': [('inflow', 300, 3000), ('serve', 150, 1500)],
+        'engines': [('inflow', 300, 3000), ('serve', 150, 1500), ('retry', 100, 600)],
         'rule': 'sequences of length 0-40 over PUBLISH qos0/1/2 (ids 1,2,3,65535, dup bits) and PUBREL (known and unknown ids), '
                 'with and without handler, fed to a connected BaseClient; all sequences up to length 5 over a 9-symbol alphabet in the '
                 'thorough tier; non-trivial = stream of well-formed PUBLISH/PUBREL packets (the C04 timeline oracle applied)',
